@@ -94,6 +94,11 @@ theorem splitAux_mem (sep : Str) (lim : Option Nat) (skip : Nat) (s : Str) (p : 
           · exact List.mem_cons_of_mem _ (ih _ _ _ hq hc)
         · subst h; exact List.mem_cons_of_mem _ (ih _ _ _ hq hc)
 
+theorem splitAux_lim_zero (sep : Str) (s : Str) : splitAux sep (some 0) 0 s = [s] := by
+  induction s with
+  | nil => rfl
+  | cons c s ih => simp [splitAux, canSplit, ih, consHead]
+
 theorem splitMax_length_le (d : Str) (m : Nat) (s : Str) : (splitMax d m s).length ≤ s.length + 1 :=
   splitAux_length_le _ _ _ _
 
@@ -166,19 +171,208 @@ theorem dropLast_drop_mid {α} (A : List α) (L : List α) : ((A ++ L).dropLast)
       rw [List.cons_append, hAL, List.dropLast_cons_cons, List.length_cons, List.drop_succ_cons, ← hAL]
       exact ih
 
-/-! ### the loop equals the general reference -/
+/-! ### re-splitting the raw remainder (fix C17-j) -/
+
+theorem canSplit_eq_false {lim : Option Nat} (h : canSplit lim = false) : lim = some 0 := by
+  cases lim with
+  | none => simp [canSplit] at h
+  | some k => simp [canSplit] at h; rw [h]
+
+theorem decLim_isSome (lim : Option Nat) : (decLim lim).isSome = lim.isSome := by
+  cases lim <;> rfl
+
+/-- `items[-1:] = items[-1].split(d, 1)`, structurally -/
+def resplitLast (d : Str) : List Str → List Str
+  | [] => []
+  | [z] => splitAux d (some 1) 0 z
+  | a :: b :: r => a :: resplitLast d (b :: r)
+
+theorem resplitLast_cons (d : Str) (a : Str) (L : List Str) (h : L ≠ []) :
+    resplitLast d (a :: L) = a :: resplitLast d L := by
+  cases L with
+  | nil => exact absurd rfl h
+  | cons b r => rfl
+
+theorem resplitLast_append (d : Str) (A L : List Str) (h : L ≠ []) :
+    resplitLast d (A ++ L) = A ++ resplitLast d L := by
+  induction A with
+  | nil => rfl
+  | cons a A ih => rw [List.cons_append, resplitLast_cons _ _ _ (by simp [h]), ih]; rfl
+
+theorem resplit_append (d : Str) (B L : List Str) (h : L ≠ []) :
+    resplit d (B ++ L) = .ok (B ++ resplitLast d L) := by
+  have hs : L = L.dropLast ++ [L.getLast h] := (List.dropLast_concat_getLast h).symm
+  rw [hs, resplitLast_append d _ _ (by simp), ← List.append_assoc]
+  simp [resplit, resplitLast]
+
+/-- a split that made no cut returns the text -/
+theorem splitAux_single (d : Str) : ∀ (s : Str) (lim : Option Nat) (sk : Nat) (p : Str),
+    splitAux d lim sk s = [p] → p = s.drop sk := by
+  intro s
+  induction s with
+  | nil => intro lim sk p h; cases sk <;> simp [splitAux] at h <;> simp [h]
+  | cons c s ih =>
+    intro lim sk p h
+    cases sk with
+    | succ k => rw [splitAux] at h; simpa using ih lim k p h
+    | zero =>
+      rw [splitAux] at h
+      split at h
+      · injection h with _ h2
+        exact absurd h2 (splitAux_ne_nil _ _ _ _)
+      · cases hL : splitAux d lim 0 s with
+        | nil => exact absurd hL (splitAux_ne_nil _ _ _ _)
+        | cons p' L' =>
+          rw [hL, consHead] at h
+          injection h with h1 h2
+          subst h2
+          have := ih lim 0 p' hL
+          simp at this
+          rw [← h1, this]; rfl
+
+/-- **splitting the last piece of a limited split once more is the split with one more cut allowed** -/
+theorem resplitLast_splitAux (d : Str) : ∀ (s : Str) (k sk : Nat),
+    resplitLast d (splitAux d (some k) sk s) = splitAux d (some (k + 1)) sk s := by
+  intro s
+  induction s with
+  | nil => intro k sk; cases sk <;> simp [splitAux, resplitLast]
+  | cons c s ih =>
+    intro k sk
+    cases sk with
+    | succ j => simp only [splitAux]; exact ih k j
+    | zero =>
+      cases k with
+      | zero =>
+        rw [splitAux_lim_zero]
+        rfl
+      | succ k' =>
+        rw [splitAux, splitAux]
+        by_cases hsw : startsWith (c :: s) d = true
+        · simp only [canSplit, hsw, decLim, Nat.add_sub_cancel]
+          have h1 : ((k' + 1 != 0) && true) = true := by simp
+          have h2 : ((k' + 1 + 1 != 0) && true) = true := by simp
+          rw [if_pos h1, if_pos h2, resplitLast_cons _ _ _ (splitAux_ne_nil _ _ _ _), ih]
+        · have hsw' : startsWith (c :: s) d = false := by simpa using hsw
+          simp only [hsw', Bool.and_false, Bool.false_eq_true, if_false]
+          rw [← ih (k' + 1) 0]
+          cases hL : splitAux d (some (k' + 1)) 0 s with
+          | nil => exact absurd hL (splitAux_ne_nil _ _ _ _)
+          | cons a L' =>
+            cases L' with
+            | nil =>
+              have ha := splitAux_single d s _ 0 a hL
+              simp at ha
+              subst ha
+              show splitAux d (some 1) 0 (c :: a) = consHead c (splitAux d (some 1) 0 a)
+              rw [splitAux]
+              simp only [hsw', Bool.and_false, Bool.false_eq_true, if_false]
+            | cons b r => simp [consHead, resplitLast]
+
+/-! ### the character-level reference, one piece of the limited split at a time -/
+
+/-- no cut: the reference returns the text as its only item -/
+theorem refAux_single (e : Char) (d : Str) (tr : Bool) : ∀ (s : Str) (lim : Option Nat) (sk : Nat) (cur p : Str),
+    splitAux d lim sk s = [p] → refAux e d tr lim sk cur s = [halveIf tr e (cur ++ p)] := by
+  intro s
+  induction s with
+  | nil => intro lim sk cur p h; cases sk <;> simp [splitAux] at h <;> subst h <;> simp [refAux]
+  | cons c s ih =>
+    intro lim sk cur p h
+    cases sk with
+    | succ k => rw [splitAux] at h; rw [refAux]; exact ih lim k cur p h
+    | zero =>
+      rw [splitAux] at h
+      rw [refAux]
+      by_cases hsw : startsWith (c :: s) d = true
+      · cases hcs : canSplit lim with
+        | false =>
+          have hl := canSplit_eq_false hcs
+          subst hl
+          simp only [canSplit, hsw] at h
+          simp only [bne_self_eq_false, Bool.false_and, Bool.false_eq_true, if_false, splitAux_lim_zero, consHead] at h
+          injection h with h1 _
+          simp [hsw, ← h1]
+        | true =>
+          simp only [hcs, hsw, Bool.and_self, if_true] at h
+          injection h with _ h2
+          exact absurd h2 (splitAux_ne_nil _ _ _ _)
+      · have hsw' : startsWith (c :: s) d = false := by simpa using hsw
+        simp only [hsw', Bool.and_false, Bool.false_eq_true, if_false] at h ⊢
+        cases hL : splitAux d lim 0 s with
+        | nil => exact absurd hL (splitAux_ne_nil _ _ _ _)
+        | cons p' L' =>
+          rw [hL, consHead] at h
+          injection h with h1 h2
+          subst h2
+          rw [ih lim 0 (cur ++ [c]) p' hL, ← h1]
+          simp
+
+/-- at least one cut: up to the first cut of the limited split the reference collects the piece; the
+delimiter after it is escaped (odd run: it stays, the budget too) or a real cut -/
+theorem refAux_piece (e : Char) (d : Str) (tr : Bool) : ∀ (s : Str) (lim : Option Nat) (sk : Nat) (p q : Str)
+    (rest : List Str), splitAux d lim sk s = p :: q :: rest →
+    ∃ s' : Str, s'.length < s.length ∧ canSplit lim = true ∧
+      splitAux d (decLim lim) (d.length - 1) s' = q :: rest ∧
+      ∀ cur : Str, refAux e d tr lim sk cur s =
+        if run e (cur ++ p) % 2 = 1 then refAux e d tr lim (d.length - 1) ((cur ++ p).dropLast ++ d) s'
+        else halveIf tr e (cur ++ p) :: refAux e d tr (decLim lim) (d.length - 1) [] s' := by
+  intro s
+  induction s with
+  | nil => intro lim sk p q rest h; cases sk <;> simp [splitAux] at h
+  | cons c s ih =>
+    intro lim sk p q rest h
+    cases sk with
+    | succ k =>
+      rw [splitAux] at h
+      obtain ⟨s', hlen, hcs, hsp, hr⟩ := ih lim k p q rest h
+      refine ⟨s', by simp only [List.length_cons]; omega, hcs, hsp, ?_⟩
+      intro cur; rw [refAux]; exact hr cur
+    | zero =>
+      rw [splitAux] at h
+      by_cases hsw : startsWith (c :: s) d = true
+      · cases hcs : canSplit lim with
+        | false =>
+          have hl := canSplit_eq_false hcs
+          subst hl
+          simp only [canSplit, hsw] at h
+          simp [splitAux_lim_zero, consHead] at h
+        | true =>
+          simp only [hcs, hsw, Bool.and_self, if_true] at h
+          injection h with hp hrest
+          subst hp
+          refine ⟨s, by simp, rfl, hrest, ?_⟩
+          intro cur
+          rw [refAux]
+          simp only [hsw, if_true, hcs, Bool.not_true, Bool.false_eq_true, if_false, List.append_nil]
+      · have hsw' : startsWith (c :: s) d = false := by simpa using hsw
+        simp only [hsw', Bool.and_false, Bool.false_eq_true, if_false] at h
+        cases hL : splitAux d lim 0 s with
+        | nil => exact absurd hL (splitAux_ne_nil _ _ _ _)
+        | cons p' L' =>
+          rw [hL, consHead] at h
+          injection h with hp hrest
+          subst hp; subst hrest
+          obtain ⟨s', hlen, hcs, hsp, hr⟩ := ih lim 0 p' q rest hL
+          refine ⟨s', by simp only [List.length_cons]; omega, hcs, hsp, ?_⟩
+          intro cur
+          rw [refAux]
+          simp only [hsw', Bool.false_eq_true, if_false]
+          rw [hr (cur ++ [c])]
+          simp
+
+/-! ### the loop equals the character-level reference -/
 
 /-- what `whileLoop` does with the outcome of the `for` -/
-def cont (cfg : Cfg) (rec : Str → PyM (List Str)) (fuel : Nat) : PyM ForRes → PyM (List Str)
+def cont (cfg : Cfg) (fuel : Nat) : PyM ForRes → PyM (List Str)
   | .error e => .error e
-  | .ok (.broke it st) => whileLoop cfg rec fuel it st
+  | .ok (.broke it st) => whileLoop cfg fuel it st
   | .ok (.exhausted it) => finalTrim cfg it
 
-theorem whileLoop_succ (cfg : Cfg) (rec : Str → PyM (List Str)) (fuel : Nat) (items : List Str) (start : Nat) :
-    whileLoop cfg rec (fuel + 1) items start
-      = cont cfg rec fuel (forScan cfg rec start (items.dropLast.drop start) 0 items) := by
+theorem whileLoop_succ (cfg : Cfg) (fuel : Nat) (items : List Str) (start : Nat) :
+    whileLoop cfg (fuel + 1) items start
+      = cont cfg fuel (forScan cfg start (items.dropLast.drop start) 0 items) := by
   rw [whileLoop]
-  cases forScan cfg rec start (items.dropLast.drop start) 0 items with
+  cases forScan cfg start (items.dropLast.drop start) 0 items with
   | error e => rfl
   | ok r => cases r <;> rfl
 
@@ -204,36 +398,49 @@ theorem finalTrim_spec (cfg : Cfg) (A : List Str) (z : Str) :
     · simp only [hl, if_false]
       rw [halve_eq_self _ _ (by rw [run_eq_zero _ _ hl])]
 
-
-theorem scan_spec (cfg : Cfg) (rec : Str → PyM (List Str)) (fuel : Nat)
-    (IH : ∀ (A : List Str) (c : Str) (rest : List Str), rest.length < fuel →
-        (cfg.m = 0 ∨ (A ++ c :: rest).length ≤ cfg.m + 1) →
-        whileLoop cfg rec fuel (A ++ c :: rest) A.length
-          = .ok (A ++ specG cfg.e cfg.d cfg.tr [] (c :: rest)))
-    (snap : List Str) : ∀ (A : List Str) (z : Str) (start i : Nat), start + i = A.length →
-      snap.length ≤ fuel → (cfg.m = 0 ∨ (A ++ (snap ++ [z])).length ≤ cfg.m + 1) →
-      cont cfg rec fuel (forScan cfg rec start snap i (A ++ (snap ++ [z])))
-        = .ok (A ++ specG cfg.e cfg.d cfg.tr [] (snap ++ [z])) := by
+/-- The `for` loop.  State: `A` are the items closed so far, the item at `start + i` is `pre ++ p` where `p` and
+the items after it are the pieces of the limited split of the text `t` that is still to be read
+(`lim` = real cuts still allowed, the same number for the code and for the reference); the answer is what
+the reference makes of `t` with `pre` already collected. -/
+theorem scan_ref (cfg : Cfg) (fuel : Nat)
+    (IH : ∀ (A : List Str) (pre p : Str) (rest : List Str) (t : Str) (lim : Option Nat) (sk : Nat),
+        t.length < fuel → lim.isSome = (cfg.m != 0) → splitAux cfg.d lim sk t = p :: rest →
+        whileLoop cfg fuel (A ++ (pre ++ p) :: rest) A.length
+          = .ok (A ++ refAux cfg.e cfg.d cfg.tr lim sk pre t))
+    (snap : List Str) : ∀ (A : List Str) (z : Str) (start i : Nat) (pre p : Str) (tail : List Str)
+      (t : Str) (lim : Option Nat) (sk : Nat), start + i = A.length →
+      t.length ≤ fuel → lim.isSome = (cfg.m != 0) → splitAux cfg.d lim sk t = p :: tail →
+      (pre ++ p) :: tail = snap ++ [z] →
+      cont cfg fuel (forScan cfg start snap i (A ++ (snap ++ [z])))
+        = .ok (A ++ refAux cfg.e cfg.d cfg.tr lim sk pre t) := by
   induction snap with
   | nil =>
-    intro A z start i _ _ _
-    simp [forScan, cont, finalTrim_spec, specG]
+    intro A z start i pre p tail t lim sk _ _ _ hsp hz
+    simp only [List.nil_append, List.cons.injEq] at hz
+    obtain ⟨hz1, hz2⟩ := hz
+    subst hz2
+    rw [refAux_single _ _ _ t lim sk pre p hsp, ← hz1]
+    simp [forScan, cont, finalTrim_spec]
   | cons x snap ih =>
-    intro A z start i hk hlen hm
+    intro A z start i pre p tail t lim sk hk hlen hlim hsp hz
+    simp only [List.cons_append, List.cons.injEq] at hz
+    obtain ⟨hx, htail⟩ := hz
     obtain ⟨nxt, rest', hT⟩ : ∃ nxt rest', snap ++ [z] = nxt :: rest' := by
       cases snap <;> simp
-    have hrl : rest'.length = snap.length := by
-      have := congrArg List.length hT
-      simp at this; omega
+    rw [htail, hT] at hsp
+    obtain ⟨t', ht', hcs, hsp', href⟩ := refAux_piece cfg.e cfg.d cfg.tr t lim sk p nxt rest' hsp
+    rw [href pre, hx]
     -- the continue step, shared by the two even cases
-    have hcont : forall hx : Str, hx = halveIf cfg.tr cfg.e x → run cfg.e x % 2 ≠ 1 →
-        cont cfg rec fuel (forScan cfg rec start snap (i + 1) (A ++ hx :: (snap ++ [z])))
-          = .ok (A ++ specG cfg.e cfg.d cfg.tr [] (x :: snap ++ [z])) := by
-      intro hx hhx hev
-      have h1 : A ++ hx :: (snap ++ [z]) = (A ++ [hx]) ++ (snap ++ [z]) := by simp
-      rw [h1, ih (A ++ [hx]) z start (i + 1) (by simp; omega) (by simp at hlen; omega)
-        (by simpa using hm)]
-      simp only [List.cons_append, hT, specG, List.nil_append, if_neg hev, hhx]
+    have hcont : forall hx' : Str, hx' = halveIf cfg.tr cfg.e x → run cfg.e x % 2 ≠ 1 →
+        cont cfg fuel (forScan cfg start snap (i + 1) (A ++ hx' :: (snap ++ [z])))
+          = .ok (A ++ (if run cfg.e x % 2 = 1 then
+                refAux cfg.e cfg.d cfg.tr lim (cfg.d.length - 1) (x.dropLast ++ cfg.d) t'
+              else halveIf cfg.tr cfg.e x :: refAux cfg.e cfg.d cfg.tr (decLim lim) (cfg.d.length - 1) [] t')) := by
+      intro hx' hhx hev
+      have h1 : A ++ hx' :: (snap ++ [z]) = (A ++ [hx']) ++ (snap ++ [z]) := by simp
+      rw [h1, ih (A ++ [hx']) z start (i + 1) [] nxt rest' t' (decLim lim) (cfg.d.length - 1)
+        (by simp; omega) (by omega) (by rw [decLim_isSome]; exact hlim) hsp' (by rw [hT]; rfl)]
+      simp only [if_neg hev, hhx]
       simp
     rw [forScan]
     by_cases hl : x.getLast? = some cfg.e
@@ -241,13 +448,6 @@ theorem scan_spec (cfg : Cfg) (rec : Str → PyM (List Str)) (fuel : Nat)
       by_cases hodd : run cfg.e x % 2 = 1
       · -- odd run: glue with the next piece and start again from here
         simp only [hodd, if_true]
-        -- whatever the trimming did, position start+i is overwritten
-        have hset : ∀ y : Str, ((A ++ y :: nxt :: rest').eraseIdx (start + i + 1)).set (start + i)
-            (x.dropLast ++ cfg.d ++ nxt) = A ++ (x.dropLast ++ cfg.d ++ nxt) :: rest' := by
-          intro y
-          rw [hk, erase_mid1, set_mid]
-        have hget : ∀ y : Str, (A ++ y :: nxt :: rest')[start + i + 1]? = some nxt := by
-          intro y; rw [hk, get_mid1]
         have hitems1 : ∃ y, (if (cfg.tr && run cfg.e x / 2 != 0) = true then
               (A ++ (x :: snap ++ [z])).set (start + i)
                 (List.take (x.length - run cfg.e x / 2 * 2) x ++ List.replicate (run cfg.e x / 2) cfg.e)
@@ -256,32 +456,43 @@ theorem scan_spec (cfg : Cfg) (rec : Str → PyM (List Str)) (fuel : Nat)
           · exact ⟨_, by rw [hk]; simp only [List.cons_append, hT]; rw [set_mid]⟩
           · exact ⟨x, by simp only [List.cons_append, hT]⟩
         obtain ⟨y, hy⟩ := hitems1
-        simp only [hy, hget, hset]
-        have hlast : ∃ l, (A ++ (x.dropLast ++ cfg.d ++ nxt) :: rest').getLast? = some l := by
-          cases h : (A ++ (x.dropLast ++ cfg.d ++ nxt) :: rest').getLast? with
-          | none => simp at h
-          | some l => exact ⟨l, rfl⟩
-        obtain ⟨l, hlst⟩ := hlast
-        simp only [hlst]
-        have hlen2 : cfg.m = 0 ∨ (A ++ (x.dropLast ++ cfg.d ++ nxt) :: rest').length ≤ cfg.m + 1 := by
-          rcases hm with hm | hm
-          · exact Or.inl hm
-          · right
-            simp only [List.length_append, List.length_cons, List.length_nil] at hm ⊢
-            omega
-        have hguard : (cfg.m != 0 && decide (cfg.m + 1 < (A ++ (x.dropLast ++ cfg.d ++ nxt) :: rest').length)) = false := by
-          rcases hlen2 with hm | hm
-          · simp [hm]
-          · have : decide (cfg.m + 1 < (A ++ (x.dropLast ++ cfg.d ++ nxt) :: rest').length) = false := by
-              rw [decide_eq_false_iff_not]; omega
-            rw [this]; simp
-        simp only [hguard, Bool.false_and, if_false, Bool.false_eq_true]
+        simp only [hy]
+        -- the list after the re-split: the pieces of `t'` with the budget `lim` again
+        obtain ⟨q', rest'', hre, hsp''⟩ : ∃ q' rest'',
+            (if (cfg.m != 0) = true then resplit cfg.d (A ++ y :: nxt :: rest') else .ok (A ++ y :: nxt :: rest'))
+              = .ok (A ++ y :: q' :: rest'') ∧
+            splitAux cfg.d lim (cfg.d.length - 1) t' = q' :: rest'' := by
+          cases lim with
+          | none =>
+            have hm : (cfg.m != 0) = false := by rw [← hlim]; rfl
+            exact ⟨nxt, rest', by simp [hm], hsp'⟩
+          | some k =>
+            have hm : (cfg.m != 0) = true := by rw [← hlim]; rfl
+            obtain ⟨k', rfl⟩ : ∃ k', k = k' + 1 := by
+              cases k with
+              | zero => simp [canSplit] at hcs
+              | succ k' => exact ⟨k', rfl⟩
+            simp only [decLim, Nat.add_sub_cancel] at hsp'
+            cases hq : splitAux cfg.d (some (k' + 1)) (cfg.d.length - 1) t' with
+            | nil => exact absurd hq (splitAux_ne_nil _ _ _ _)
+            | cons q' rest'' =>
+              refine ⟨q', rest'', ?_, rfl⟩
+              have h2 : A ++ y :: nxt :: rest' = (A ++ [y]) ++ (nxt :: rest') := by simp
+              rw [if_pos hm, h2, resplit_append _ _ _ (by simp), ← hsp', resplitLast_splitAux, hq]
+              simp
+        simp only [hre]
+        have hset : ((A ++ y :: q' :: rest'').eraseIdx (start + i + 1)).set (start + i)
+            (x.dropLast ++ cfg.d ++ q') = A ++ (x.dropLast ++ cfg.d ++ q') :: rest'' := by
+          rw [hk, erase_mid1, set_mid]
+        have hget : (A ++ y :: q' :: rest'')[start + i + 1]? = some q' := by
+          rw [hk, get_mid1]
+        simp only [hget, hset]
         simp only [cont, hk]
-        rw [IH A _ rest' (by rw [hrl]; simp at hlen; omega) hlen2]
-        simp only [List.cons_append, hT, specG, List.nil_append, if_pos hodd]
-        rw [specG_glue _ _ _ (x.dropLast ++ cfg.d) nxt rest']
+        have := IH A (x.dropLast ++ cfg.d) q' rest'' t' lim (cfg.d.length - 1) (by omega) hlim hsp''
+        rw [List.append_assoc] at this ⊢
+        rw [this]
       · simp only [hodd, if_false]
-        have hx : (if (cfg.tr && run cfg.e x / 2 != 0) = true then
+        have hx2 : (if (cfg.tr && run cfg.e x / 2 != 0) = true then
               (A ++ (x :: snap ++ [z])).set (start + i)
                 (List.take (x.length - run cfg.e x / 2 * 2) x ++ List.replicate (run cfg.e x / 2) cfg.e)
             else A ++ (x :: snap ++ [z])) = A ++ halveIf cfg.tr cfg.e x :: (snap ++ [z]) := by
@@ -297,50 +508,48 @@ theorem scan_spec (cfg : Cfg) (rec : Str → PyM (List Str)) (fuel : Nat)
             | true =>
               have : run cfg.e x / 2 = 0 := by simpa [htr] using h
               rw [halveIf_eq_self _ _ _ this]
-        rw [hx]
-        exact hcont _ rfl hodd
+        rw [hx2]
+        have := hcont _ rfl hodd
+        simpa only [hodd, if_false] using this
     · simp only [hl, if_false]
       have hr := run_eq_zero _ _ hl
       have := hcont x (by rw [halveIf_eq_self _ _ _ (by rw [hr])]) (by rw [hr]; decide)
       simpa using this
 
-
-theorem whileLoop_spec (cfg : Cfg) (rec : Str → PyM (List Str)) :
-    ∀ (fuel : Nat) (A : List Str) (c : Str) (rest : List Str), rest.length < fuel →
-      (cfg.m = 0 ∨ (A ++ c :: rest).length ≤ cfg.m + 1) →
-      whileLoop cfg rec fuel (A ++ c :: rest) A.length
-        = .ok (A ++ specG cfg.e cfg.d cfg.tr [] (c :: rest)) := by
+theorem whileLoop_ref (cfg : Cfg) :
+    ∀ (fuel : Nat) (A : List Str) (pre p : Str) (rest : List Str) (t : Str) (lim : Option Nat) (sk : Nat),
+      t.length < fuel → lim.isSome = (cfg.m != 0) → splitAux cfg.d lim sk t = p :: rest →
+      whileLoop cfg fuel (A ++ (pre ++ p) :: rest) A.length
+        = .ok (A ++ refAux cfg.e cfg.d cfg.tr lim sk pre t) := by
   intro fuel
   induction fuel with
-  | zero => intro A c rest h; exact absurd h (Nat.not_lt_zero _)
+  | zero => intro A pre p rest t lim sk h; exact absurd h (Nat.not_lt_zero _)
   | succ fuel ih =>
-    intro A c rest hlen hm
+    intro A pre p rest t lim sk hlen hlim hsp
     rw [whileLoop_succ, dropLast_drop_mid]
-    have hne : c :: rest ≠ [] := by simp
-    have hsplit : c :: rest = (c :: rest).dropLast ++ [(c :: rest).getLast hne] :=
+    have hne : (pre ++ p) :: rest ≠ [] := by simp
+    have hsplit : (pre ++ p) :: rest = ((pre ++ p) :: rest).dropLast ++ [((pre ++ p) :: rest).getLast hne] :=
       (List.dropLast_concat_getLast hne).symm
-    have h := scan_spec cfg rec fuel ih (c :: rest).dropLast A ((c :: rest).getLast hne) A.length 0 rfl
-      (by simp; omega) (by rw [← hsplit]; exact hm)
+    have h := scan_ref cfg fuel ih ((pre ++ p) :: rest).dropLast A (((pre ++ p) :: rest).getLast hne) A.length 0
+      pre p rest t lim sk rfl (by omega) hlim hsp hsplit
     rw [← hsplit] at h
     exact h
 
-/-- fuel adequacy and the general reference in one statement: with at least one unit of fuel
-per piece the loop ends, and it computes `specG`. -/
-theorem splitWithEscapeD_spec (depth fuel : Nat) (s d : Str) (m : Nat) (e : Char) (tr : Bool)
-    (hd : d ≠ []) (hf : (splitMax d m s).length ≤ fuel) :
-    splitWithEscapeD (depth + 1) fuel s d m (some e) tr = .ok (specG e d tr [] (splitMax d m s)) := by
+theorem limOf_isSome (m : Nat) : (limOf m).isSome = (m != 0) := by
+  unfold limOf
+  split <;> simp [*]
+
+/-- **Fuel adequacy and the main fact in one statement**: with more fuel than the text has characters the
+loop ends, and it computes the character-level reference (real cuts are counted; fix C17-j). -/
+theorem splitWithEscapeD_ref (fuel : Nat) (s d : Str) (m : Nat) (e : Char) (tr : Bool)
+    (hd : d ≠ []) (hf : s.length < fuel) :
+    splitWithEscapeD fuel s d m (some e) tr = .ok (refAux e d tr (limOf m) 0 [] s) := by
   rw [splitWithEscapeD, if_neg hd]
   simp only
   cases hs : splitMax d m s with
   | nil => exact absurd hs (splitMax_ne_nil d m s)
   | cons c rest =>
-    have hm : m = 0 ∨ ([] ++ c :: rest).length ≤ m + 1 := by
-      by_cases h0 : m = 0
-      · exact Or.inl h0
-      · right; rw [List.nil_append, ← hs]; exact splitMax_length_lim d m s h0
-    have hl : rest.length < fuel := by rw [hs] at hf; simp at hf; omega
-    have := whileLoop_spec ⟨e, d, tr, m⟩ (fun s' => splitWithEscapeD depth fuel s' d 1 (some e) tr)
-      fuel [] c rest hl hm
+    have := whileLoop_ref ⟨e, d, tr, m⟩ fuel [] [] c rest s (limOf m) 0 hf (limOf_isSome m) hs
     simpa using this
 
 /-! ### the local specification -/
@@ -520,11 +729,6 @@ theorem splitAux_no_occ (sep : Str) (lim : Option Nat) (s : Str) (h : isInfix se
   | cons c s ih =>
     simp only [isInfix, Bool.or_eq_false_iff] at h
     simp only [splitAux, h.1, Bool.and_false, Bool.false_eq_true, if_false, ih h.2, consHead]
-
-theorem splitAux_lim_zero (sep : Str) (s : Str) : splitAux sep (some 0) 0 s = [s] := by
-  induction s with
-  | nil => rfl
-  | cons c s ih => simp [splitAux, canSplit, ih, consHead]
 
 theorem splitAux_clean (sep : Str) (lim : Option Nat) (x : Str) (hs : sep ≠ []) (hx : Clean sep x) :
     splitAux sep lim 0 x = [x] := by
